@@ -23,10 +23,10 @@ def load_all() -> None:
 # property -> rule ids (DESIGN.md section 0 / 6)
 PROPERTY_RULES: Dict[str, List[str]] = {
     "C01": ["STORE-4", "STORE-5", "STORE-6", "STORE-7", "STORE-8", "CTRL-1", "CTRL-2", "CTRL-5", "CTRL-9", "CTRL-10", "CTRL-11", "STORE-11", "STORE-12", "ORD-3", "CTRL-13", "STORE-14", "STORE-15", "STORE-16", "STORE-19"],
-    "C02": ["STORE-5", "TOTAL-3", "TOTAL-4", "TOTAL-6", "TOTAL-7", "USE-1", "ATTR-1", "QUERY-4", "QUERY-5", "QUERY-6", "LOWER-14", "QUERY-8", "CTRL-13", "STORE-15", "STORE-16", "CTRL-5"],
+    "C02": ["STORE-5", "TOTAL-3", "TOTAL-4", "TOTAL-6", "TOTAL-7", "USE-1", "ATTR-1", "QUERY-4", "QUERY-5", "QUERY-6", "LOWER-14", "QUERY-8", "CTRL-13", "STORE-15", "STORE-16", "CTRL-5", "STORE-12", "QUERY-2"],
     "C03": ["CTRL-5", "CTRL-6", "STORE-8", "STORE-12", "DISP-6", "TOTAL-6", "QUERY-4", "QUERY-5", "QUERY-6", "QUERY-7", "QUERY-8", "CTRL-13", "STORE-14", "STORE-15", "STORE-17", "STORE-18", "TOTAL-2"],
     "C04": ["STORE-6", "STORE-7", "STORE-8", "DISP-9", "NAME-3", "NAME-4", "STORE-17"],
-    "C05": ["STORE-1", "STORE-2", "STORE-3", "STORE-4", "STORE-11", "STORE-13", "ORD-3", "STORE-14", "STORE-16"],
+    "C05": ["STORE-1", "STORE-2", "STORE-3", "STORE-4", "STORE-11", "STORE-13", "ORD-3", "STORE-14", "STORE-16", "NAME-3"],
     "C06": ["CTRL-1", "CTRL-2", "CTRL-3", "CTRL-4", "CTRL-8", "CTRL-9", "CTRL-10", "CTRL-11", "STORE-5", "CTRL-12", "CTRL-14"],
     "C07": ["DISP-5", "DISP-6", "CTRL-5", "CTRL-7", "LOWER-1", "LOWER-2", "LOWER-3", "LOWER-4", "LOWER-6", "LOWER-7", "LOWER-8", "LOWER-9", "LOWER-10", "LOWER-11", "LOWER-12", "LOWER-13", "LOWER-14", "LOWER-15", "STORE-10", "TOTAL-6", "USE-1", "ATTR-1", "CTRL-12", "LOWER-16", "ORD-6", "LOWER-17", "LOWER-19"],
     "C08": ["LOWER-1", "LOWER-2", "LOWER-3", "LOWER-4", "LOWER-6", "LOWER-12", "LOWER-13", "STORE-10", "ORD-6", "LOWER-17", "LOWER-19"],
@@ -37,7 +37,7 @@ PROPERTY_RULES: Dict[str, List[str]] = {
     "C13": ["QUERY-1", "QUERY-2", "QUERY-3", "QUERY-4", "QUERY-5", "QUERY-6", "QUERY-7", "STORE-12", "TOTAL-4", "TOTAL-6", "TOTAL-7", "QUERY-8", "ORD-6"],
     "C14": ["STORE-3", "STORE-4", "STORE-5", "STORE-9", "CTRL-4", "CTRL-8", "NAME-3", "TOTAL-1", "TOTAL-2", "TOTAL-5", "STORE-11", "STORE-14", "STORE-16", "STORE-19", "CTRL-1", "CTRL-2", "CTRL-9", "CTRL-10"],
     "C15": ["DISP-8", "DISP-9", "ORD-3", "ORD-4", "TOTAL-6", "TOTAL-8", "ATTR-1", "CTRL-12", "DISP-11", "ORD-6", "DISP-12", "CTRL-14"],
-    "C16": ["ITER-1", "TOTAL-6", "STORE-6", "ORD-6"],
+    "C16": ["ITER-1", "TOTAL-6", "STORE-6", "ORD-6", "STORE-11"],
     "C17": ["DISP-7", "DISP-10", "ORD-5", "TOTAL-6", "TOTAL-9", "USE-1", "ATTR-1", "INIT-1", "CTRL-12", "ORD-6"],
     "C18": ["NAME-1", "NAME-2", "NAME-3", "NAME-4", "ORD-5", "LOWER-19", "NAME-6"],
 }
